@@ -40,6 +40,7 @@ import Apko.Proofs.Lemmas.SbomFuel
 import Apko.Proofs.Lemmas.SbomImage
 import Apko.Proofs.Lemmas.SbomVerdict
 import Apko.Proofs.Lemmas.SbomDriver
+import Apko.Proofs.Lemmas.SbomDedup
 
 namespace Apko.C11
 open Apko Apko.Sbom
@@ -783,6 +784,38 @@ theorem apk_elements_match_embedded {o : Opts} {fs : SbomDir} {ord : List Id →
       o.apks.map (fun a => (a.name, a.version, [("SHA1".toList, a.checksum)])) := by
   rw [(one_element_per_apk_partial_embedded hord hn hd h).1, List.drop_left]
   simp [Function.comp_def]
+
+/-- the old hypothesis `DistinctIds` splits into: distinct header identifiers, ¬F11a, and no database entry
+listed twice -/
+theorem distinctIds_split {o : Opts} (hd : DistinctIds o) :
+    (header o).ids.Nodup ∧ idCollision o = false ∧ o.apks.Nodup := by
+  unfold DistinctIds at hd
+  rw [List.nodup_append] at hd
+  refine ⟨hd.1, idCollision_false.mpr ⟨?_, inj_of_nodup_map hd.2.1⟩, nodup_of_nodup_map _ hd.2.1⟩
+  intro a ha hm
+  exact hd.2.2 _ hm _ (List.mem_map_of_mem (f := apkId (nonceOf o.imageDigest)) ha) rfl
+
+/-- **one_element_per_apk**, under exactly the complement of F11a and F11c as the driver computes them (and
+distinct header identifiers): the element list is the header followed by one element per *distinct* entry of
+the installed database (an entry listed twice gets one element), each with the database's name, version and
+checksum -/
+theorem one_element_per_distinct_apk_partial {o : Opts} {fs : SbomDir} {ord : List Id → List Id} {d : Doc}
+    (hord : OrdOk ord) (hh : (header o).ids.Nodup) (hcol : idCollision o = false)
+    (hn : embeddedTarget o fs = false) (h : generate o fs ord = .ok d) :
+    d.packages = (header o).packages ++
+      o.apks.eraseDups.map (fun a => ⟨apkId (nonceOf o.imageDigest) a, a.name, a.version, [("SHA1".toList, a.checksum)]⟩) ∧
+    d.rels = (header o).rels ∧ d.describes = (header o).describes := by
+  obtain ⟨hp, hr, hds⟩ := generate_noTarget hord (embeddedTarget_false.mp hn) h
+  refine ⟨?_, hr, hds⟩
+  rw [hp, dedup_header_apks hh hcol]
+  rfl
+
+/-- a database that lists an entry twice: `DistinctIds` fails, ¬F11a holds, one element is emitted -/
+example : ¬ DistinctIds ⟨"sha256:ab".toList, ["sha256:cd".toList], [], "1".toList,
+      [⟨"foo".toList, "1".toList, "22".toList⟩, ⟨"foo".toList, "1".toList, "22".toList⟩]⟩ ∧
+    idCollision ⟨"sha256:ab".toList, ["sha256:cd".toList], [], "1".toList,
+      [⟨"foo".toList, "1".toList, "22".toList⟩, ⟨"foo".toList, "1".toList, "22".toList⟩]⟩ = false := by
+  unfold DistinctIds; decide
 
 /-- the weaker hypothesis is satisfied where the old one is not: `foo` ships an SBOM (about `libz`) -/
 example : NoTarget benignFS benignOpts ∧ DistinctIds benignOpts ∧ noEmbeddedB benignFS benignOpts = false := by
